@@ -249,6 +249,52 @@ func init() {
 						}
 					}
 				}})
+			// an unterminated construct right after a closed one (with or without blanks in between) is still unterminated
+			openers := []struct{ src, kind string }{{"{{-- TODO", "c"}, {"{{--", "c"}, {"{{ \"abc", "s"}, {"{{ {a: 1", "o"}, {"@if(x", "a"}, {"@if(x)y", "b"}, {"@each(v in a)", "b"}, {"@component(\"d\")@slot x", "b"}}
+			secs = append(secs, core.Section{Name: "unterminated-after-closed", Exhaustive: true, N: len(closedInners) * len(openers),
+				Run: func(c *core.Ctx, i int) {
+					in, op := closedInners[i%len(closedInners)], openers[i/len(closedInners)]
+					for _, ws := range []string{"", " ", "\n", " \t\r\n  ", "text", " x "} {
+						parseContract(c, in+ws+op.src, spanNames[op.kind])
+						parseContract(c, "<p>"+in+ws+in+ws+op.src, spanNames[op.kind])
+					}
+				}})
+			// files larger than any buffer a loader might use: a fault at the very end is still found
+			bigFaults := []struct{ src, kind string }{{"{{ total # }}", "code with an illegal character"}, {"@if(true)never closed", spanNames["b"]}, {"{{ \"never closed", spanNames["s"]}, {"{{-- never closed", spanNames["c"]}, {"{{ 1 + }}", "an expression without its operand"}}
+			bigSizes := []int{1<<16 + 3, 1<<20 - 5, 1<<20 + 77, 2<<20 + 1}
+			secs = append(secs, core.Section{Name: "large-file-faults", Exhaustive: true, N: len(bigFaults) * len(bigSizes),
+				Run: func(c *core.Ctx, i int) {
+					f, n := bigFaults[i%len(bigFaults)], bigSizes[i/len(bigFaults)]
+					line := "<li>row {{ 1 }} of a long page</li>\n"
+					src := strings.Repeat(line, n/len(line)+1)[:n]
+					src = src[:strings.LastIndex(src, "\n")+1] + f.src
+					c.Input(map[string]any{"bytes": len(src), "ends_with": f.src})
+					c.Nontrivial(fmt.Sprint("big", n, f.src))
+					for _, dirFile := range []string{"page.tw", "layouts/l.tw", "components/c.tw"} {
+						os.RemoveAll("c08big")
+						if err := writeFiles("c08big", map[string]string{dirFile: src, "ok.tw": "fine"}); err != nil {
+							c.Inconclusive(err.Error())
+							return
+						}
+						textwire.VerifResetConfig()
+						var tpl *textwire.Template
+						var err error
+						c.Eval(1)
+						if c.Guard(func() { tpl, err = textwire.NewTemplate(&config.Config{TemplateDir: "c08big", TemplateExt: ".tw"}) }) {
+							continue
+						}
+						if err == nil && tpl != nil {
+							c.Violation("accepted:large-file", fmt.Sprintf("a %d-byte file %s that ends in %s (%q) was loaded without an error", len(src), dirFile, f.kind, f.src), map[string]any{"bytes": len(src), "file": dirFile, "ends_with": f.src})
+						}
+					}
+					os.RemoveAll("c08big")
+					// the same bytes as a string
+					var serr error
+					c.Eval(1)
+					if !c.Guard(func() { _, serr = textwire.EvaluateString(src, nil) }) && serr == nil {
+						c.Violation("accepted:large-string", fmt.Sprintf("a %d-byte template that ends in %s was accepted", len(src), f.kind), map[string]any{"bytes": len(src), "ends_with": f.src})
+					}
+				}})
 			// hostile bytes and more text after the point of truncation never close anything
 			secs = append(secs, core.Section{Name: "truncations-with-hostile-tail", Exhaustive: true, N: len(truncations),
 				Run: func(c *core.Ctx, i int) {
